@@ -90,6 +90,9 @@ pub enum WOp {
     Drop,
     /// Cut the network at this very instant (forever).
     CutNet { dir: CutDir, drop_in_flight: bool },
+    /// Application-level framing: wait until the local reader has read at least n stream bytes
+    /// (or has finished) before going on (typically before closing).
+    WaitRead(u64),
 }
 
 #[derive(Clone, Debug, PartialEq, Serialize, Deserialize)]
